@@ -329,8 +329,23 @@ func checkC16(c *Ctx) {
 				case strings.HasPrefix(tr, "."):
 					if q := strings.Index(tr, `"T`); q >= 0 && strings.Contains(tr[q:], ":") {
 						ident = tr[q+1 : q+strings.Index(tr[q:], ":")]
-					} else if f := strings.Fields(tr); len(f) == 2 {
+					} else if f := strings.Fields(tr); len(f) == 2 && !strings.Contains(tr, `"`) {
 						ident = f[1] // .2byte ITEM_n
+					} else if strings.Contains(tr, `"`) {
+						// a later line of a text: the construct is the text whose first line carries the identity
+						for b := k - 1; b >= 0; b-- {
+							pl := strings.TrimSpace(strings.TrimRight(lines[b], "\r"))
+							if reMarker.MatchString(pl) {
+								continue
+							}
+							if !strings.HasPrefix(pl, ".") {
+								break
+							}
+							if q := strings.Index(pl, `"T`); q >= 0 && strings.Contains(pl[q:], ":") {
+								ident = pl[q+1 : q+strings.Index(pl[q:], ":")]
+								break
+							}
+						}
 					}
 				default:
 					tk := splitToks(tr)
